@@ -523,7 +523,10 @@ fn oracle09(flags: ConsensusFlags, max_cost: u64, program: &[u8], refs: &[Vec<u8
             if want != got {
                 fails.push("coinspend-coins-differ".into());
             }
-            let too_big = cs.iter().any(|c| c.puzzle_reveal.as_ref() == [0x80] || c.solution.as_ref().len() >= 2000000);
+            // outside the rebuild clause (premises fits_tuple / solution_generator = Some of C09_rebuild): a puzzle or
+            // solution beyond Program's 2 MB limit, or coin spends whose generator would exceed solution_generator's limit
+            let too_big = cs.iter().any(|c| c.puzzle_reveal.as_ref() == [0x80] || c.solution.as_ref().len() >= 2000000)
+                || cs.iter().map(|c| c.puzzle_reveal.as_ref().len() + c.solution.as_ref().len() + 50).sum::<usize>() + 8 >= 2000000;
             // build_generator conses onto the front: feed the spends in reverse to keep their order
             match solution_generator(cs.iter().rev().map(|c| (c.coin, c.puzzle_reveal.as_ref().to_vec(), c.solution.as_ref().to_vec()))) {
                 Err(_) => {
